@@ -86,7 +86,7 @@ def gen(tier, seed, shard, nshards):
         if i % nshards == shard:
             yield "pooled", {"kind": ("nd", "lganm", "lganm-iv", "anm")[i % 4], "i": i, "K": POOL[tier]["K"], "n": POOL[tier]["n"], "base": int(seed)}
     # a few very long seeded samples (batched generation re-using a seed shows as repeated blocks of rows)
-    for i, nlong in enumerate((2**18 + 4321, 2**16 + 77, 2**17 + 1234, 2**19 + 99, 2**23 + 1001) if tier == "quick" else (2**18 + 4321, 2**20 + 4321, 2**21 + 99, 2**19 + 5, 1500001, 2**16 + 77, 2**23 + 1001, 2**24 + 17)):       # the last ones: n * p beyond 2**24 values
+    for i, nlong in enumerate((2**18 + 4321, 2**16 + 77, 2**17 + 1234, 2**19 + 99, 2**23 + 1001) if tier == "quick" else (2**18 + 4321, 2**20 + 4321, 2**21 + 99, 2**19 + 5, 1500001, 2**16 + 77, 2**23 + 1001, 2**23 + 5003)):       # the last ones: n * p beyond 2**24 values
         if i % nshards == shard:
             rng = util.rng_for("C04", seed, "long", i)
             if i % 2 == 0:
